@@ -16,6 +16,7 @@ import IgrisModel.C01.More
 import IgrisModel.C01.Ext3
 import IgrisModel.C01.Ext4
 import IgrisModel.C01.Ext5
+import IgrisModel.C01.Ext6
 namespace Igris.C01
 
 /-- a history of the reference semantics -/
@@ -995,5 +996,61 @@ theorem wrap_comparator (a b : BitVec 8) :
   refine ⟨?_, by decide⟩
   have : ∀ d : BitVec 8, (decide (d.toInt < 0) = true ↔ 128 ≤ d.toNat) := by decide
   exact this (a - b)
+
+/-! ### Extension round 3b: the repaired `dlist_is_correct` / `is_correct()`, the closed-form ring -/
+
+/-- THE REPAIRED `dlist_is_correct(head)` (one walk testing `it->next->prev == it`, at most 1000 iterations)
+on ANY heap — hand-corrupted or not — is true EXACTLY when `head` is on a well-formed ring (nodes pairwise
+different, `next` closes the cycle, every successor points back) of fewer than 1000 elements besides it.
+The right-hand side is the specification predicate of the whole development (`IsRing`), not the walk. -/
+theorem is_correct_strict_iff (h : Heap) (hd : Nat) :
+    dlistIsCorrectStrict h hd = true ↔ ∃ xs, xs.length < 1000 ∧ IsRing h hd xs :=
+  isCorrectWalk_iff h hd 1000
+
+/-- the C++ `is_correct()` after the repair (the same walk without a bound; `fuel` = the model's loop bound):
+for EVERY fuel it returns, and answers true exactly on the well-formed rings of fewer than `fuel` elements -/
+theorem cpp_is_correct_strict_iff (h : Heap) (fuel l : Nat) :
+    cppIsCorrectStrict h fuel l = true ↔ ∃ xs, xs.length < fuel ∧ IsRing h l xs :=
+  isCorrectWalk_iff h l fuel
+
+/-- on a realised family the repaired function answers "fewer than 1000 elements" — both directions, so the
+answers `is_correct_on_rings` / `is_correct_false_on_long_rings` gave for the old code are unchanged -/
+theorem is_correct_strict_on_rings {h : Heap} {A : Rings} {hd : Nat} {xs : List Nat} (ok : RingsOK h A)
+    (hm : (hd :: xs) ∈ A) : dlistIsCorrectStrict h hd = decide (xs.length < 1000) := by
+  obtain ⟨a, ys, e, r⟩ := ok.ring _ hm
+  injection e with e1 e2; subst e1; subst e2
+  by_cases hl : xs.length < 1000
+  · simp only [hl, decide_true]
+    exact (is_correct_strict_iff h hd).mpr ⟨xs, hl, r⟩
+  · simp only [hl, decide_false]
+    cases hc : dlistIsCorrectStrict h hd with
+    | false => rfl
+    | true =>
+      obtain ⟨zs, hz, rz⟩ := (is_correct_strict_iff h hd).mp hc
+      have := IsRing.length_unique r rz
+      omega
+
+/-- what the old code accepted and what made `circular_size()` hang is rejected now: the four-node heap whose
+backward links are a copy of the forward links, and the lasso `0 → 1 → 1 → …` for EVERY loop bound (the
+repaired C++ walk returns false at its second step instead of running forever) -/
+theorem is_correct_strict_rejects_witness :
+    dlistIsCorrect corrupt4 0 = true ∧ dlistIsCorrectStrict corrupt4 0 = false ∧
+    ∀ fuel, cppIsCorrectStrict lassoHeap fuel 0 = false := by
+  refine ⟨by decide, by decide, ?_⟩
+  intro fuel
+  cases fuel with
+  | zero => rfl
+  | succ n =>
+    cases n with
+    | zero => simp [cppIsCorrectStrict, isCorrectWalk, lassoHeap]
+    | succ m => simp [cppIsCorrectStrict, isCorrectWalk, lassoHeap]
+
+/-- the closed-form ring `ringHeap n` the driver uses for `reset R n` (up to 10^6 nodes) IS the well-formed
+ring head 0, elements 1, …, n-1 — proved, no longer only tied by the dumped small sizes -/
+theorem ring_heap_is_ring (n : Nat) (hn : 0 < n) : IsRing (ringHeap n) 0 (List.range' 1 (n - 1)) :=
+  ringHeap_isRing n hn
+
+example : dlistIsCorrectStrict (ringHeap 5) 0 = true := by decide
+example : ∃ xs, xs.length < 1000 ∧ IsRing (ringHeap 5) 0 xs := ⟨_, by decide, ring_heap_is_ring 5 (by decide)⟩
 
 end Igris.C01
